@@ -23,10 +23,13 @@ import (
 	"net/url"
 	"os"
 	"reflect"
+	"runtime"
 	"sort"
 	"strconv"
 	"strings"
+	"sync"
 	"testing"
+	"time"
 
 	ol "github.com/ossrs/go-oryx-lib/logger"
 )
@@ -471,6 +474,247 @@ func vC19Serve(h http.Handler, q string) (rec *httptest.ResponseRecorder, panick
 	rec = httptest.NewRecorder()
 	panicked = vPanicText(func() { h.ServeHTTP(rec, httptest.NewRequest("GET", "/api"+q, nil)) })
 	return
+}
+
+// ---- overlapping responses ----
+// a ResponseWriter that stops the handler at its first Header() call -- after the envelope has been
+// encoded, before anything is written -- until it is released
+type vC19BlockRW struct {
+	rec     *httptest.ResponseRecorder
+	reached chan struct{}
+	release chan struct{}
+	once    sync.Once
+}
+
+func vC19NewBlockRW() *vC19BlockRW {
+	return &vC19BlockRW{rec: httptest.NewRecorder(), reached: make(chan struct{}), release: make(chan struct{})}
+}
+func (w *vC19BlockRW) Header() http.Header {
+	w.once.Do(func() { close(w.reached); <-w.release })
+	return w.rec.Header()
+}
+func (w *vC19BlockRW) Write(b []byte) (int, error) { return w.rec.Write(b) }
+func (w *vC19BlockRW) WriteHeader(code int)        { w.rec.WriteHeader(code) }
+
+// a ResponseWriter that takes its time and the bytes one small piece after the other
+type vC19SlowRW struct{ rec *httptest.ResponseRecorder }
+
+func (w *vC19SlowRW) Header() http.Header  { time.Sleep(200 * time.Microsecond); return w.rec.Header() }
+func (w *vC19SlowRW) WriteHeader(code int) { w.rec.WriteHeader(code) }
+func (w *vC19SlowRW) Write(b []byte) (int, error) {
+	for i := 0; i < len(b); i += 64 {
+		j := i + 64
+		if j > len(b) {
+			j = len(b)
+		}
+		w.rec.Write(b[i:j])
+		runtime.Gosched()
+	}
+	return len(b), nil
+}
+
+// handler and expected envelope object for a payload of kind 0..3 (default filters)
+func vC19Simple(p vSx, pid int) (h http.Handler, expect interface{}, ok bool) {
+	msg := vPanicText(func() {
+		switch p.l[0].int() {
+		case 0:
+			unm := false
+			val := vC19Value(p.l[1], &unm)
+			if unm {
+				return
+			}
+			expect = map[string]interface{}{"code": 0, "server": pid, "data": val}
+			h = http.HandlerFunc(func(w http.ResponseWriter, r *http.Request) { WriteData(nil, w, r, val) })
+		case 1:
+			c := int(p.l[1].i64())
+			expect = map[string]interface{}{"code": c}
+			h = Error(nil, SystemError(c))
+		case 2:
+			c, m := int(p.l[1].i64()), string(p.l[2].b)
+			expect = map[string]interface{}{"code": c, "data": m}
+			h = CplxError(nil, SystemError(c), m)
+		case 3:
+			c, m := int(p.l[1].i64()), string(p.l[2].b)
+			expect = map[string]interface{}{"code": c, "data": m}
+			h = Error(nil, vC19App{c, m})
+		}
+	})
+	return h, expect, msg == "" && h != nil
+}
+
+func vC19RespObs(rec *httptest.ResponseRecorder, cb string) vSx {
+	ct := rec.Header().Get("Content-Type")
+	ctCode := 9
+	switch ct {
+	case "application/json":
+		ctCode = 0
+	case "application/javascript":
+		ctCode = 1
+	case "text/plain; charset=utf-8":
+		ctCode = 2
+	}
+	body := rec.Body.Bytes()
+	bodyObs := vL(vZ(1), vB(body))
+	js, wcb := body, ""
+	if ctCode == 1 && cb != "" && bytes.HasPrefix(body, []byte(cb+"(")) && bytes.HasSuffix(body, []byte(")")) {
+		js, wcb = body[len(cb)+1:len(body)-1], cb
+	}
+	if ctCode == 0 || ctCode == 1 && wcb != "" {
+		if m, _, ok := vC19Members(js); ok {
+			bodyObs = vL(vZ(0), vS(wcb), m)
+		}
+	}
+	return vL(vI(rec.Code), vI(ctCode), vS(rec.Header().Get("Server")), bodyObs, vB(body))
+}
+
+// (7 mode xserver pid ((payload xcb xmb) ...)): the handlers are served overlapping in time.
+//
+//	mode 0/1: every handler is started in turn and stops between encoding and writing; then they
+//	          are released first-to-last (0) or last-to-first (1)
+//	mode 2:   the first handler stops there, all the others are served completely, then it goes on
+//	mode 3:   all at once, each on its own goroutine into a slow writer
+//
+// Each response must be the envelope of ITS OWN value.
+func vC19RunOverlap(k *vKit, c vSx) {
+	bad := vL(vZ(-1))
+	if len(c.l) != 5 || !c.l[4].isList() || len(c.l[4].l) == 0 {
+		k.record(c, bad, false)
+		return
+	}
+	mode, srv, pid := c.l[1].int(), string(c.l[2].b), os.Getpid()
+	Server = srv
+	type one struct {
+		h      http.Handler
+		cb     string
+		mb     []byte
+		expect interface{}
+	}
+	var hs []one
+	var subs []vSx
+	for _, sub := range c.l[4].l {
+		if !sub.isList() || len(sub.l) < 2 || !sub.l[0].isList() || len(sub.l[0].l) < 2 {
+			k.record(c, bad, false)
+			return
+		}
+		h, expect, ok := vC19Simple(sub.l[0], pid)
+		if !ok {
+			k.record(c, bad, false)
+			return
+		}
+		mb, _ := json.Marshal(expect)
+		hs = append(hs, one{h, string(sub.l[1].b), mb, expect})
+		subs = append(subs, vL(sub.l[0], sub.l[1], vB(mb)))
+	}
+	c = vL(vI(7), vI(mode), c.l[2], vI(pid), vLs(subs))
+	req := func(o one) *http.Request {
+		q := ""
+		if o.cb != "" {
+			q = "?callback=" + url.QueryEscape(o.cb)
+		}
+		return httptest.NewRequest("GET", "/api"+q, nil)
+	}
+	recs := make([]*httptest.ResponseRecorder, len(hs))
+	panics := make([]string, len(hs))
+	var wg sync.WaitGroup
+	if mode == 3 {
+		startc := make(chan struct{})
+		for i := range hs {
+			w := &vC19SlowRW{httptest.NewRecorder()}
+			recs[i] = w.rec
+			wg.Add(1)
+			go func(i int, w http.ResponseWriter) {
+				defer wg.Done()
+				<-startc
+				panics[i] = vPanicText(func() { hs[i].h.ServeHTTP(w, req(hs[i])) })
+			}(i, w)
+		}
+		close(startc)
+		wg.Wait()
+	} else {
+		// one P: a buffer handed back by one goroutine is the next one handed out
+		old := runtime.GOMAXPROCS(1)
+		blocked := []*vC19BlockRW{}
+		nBlock := len(hs)
+		if mode == 2 {
+			nBlock = 1
+		}
+		for i := 0; i < nBlock; i++ {
+			w := vC19NewBlockRW()
+			recs[i] = w.rec
+			blocked = append(blocked, w)
+			wg.Add(1)
+			go func(i int, w *vC19BlockRW) {
+				defer wg.Done()
+				panics[i] = vPanicText(func() { hs[i].h.ServeHTTP(w, req(hs[i])) })
+				w.once.Do(func() { close(w.reached) })
+			}(i, w)
+			<-w.reached
+		}
+		for i := nBlock; i < len(hs); i++ {
+			recs[i] = httptest.NewRecorder()
+			i0 := i
+			panics[i] = vPanicText(func() { hs[i0].h.ServeHTTP(recs[i0], req(hs[i0])) })
+		}
+		if mode == 1 {
+			for i := len(blocked) - 1; i >= 0; i-- {
+				close(blocked[i].release)
+			}
+		} else {
+			for _, w := range blocked {
+				close(w.release)
+			}
+		}
+		wg.Wait()
+		runtime.GOMAXPROCS(old)
+	}
+	var obs []vSx
+	for i := range hs {
+		obs = append(obs, vC19RespObs(recs[i], hs[i].cb))
+	}
+	idx := k.record(c, vLs(obs), true)
+	k.count("kind", "7")
+	k.count("overlap-mode", fmt.Sprint(mode))
+	k.count("overlap-handlers", fmt.Sprint(len(hs)))
+	for i, o := range hs {
+		if panics[i] != "" {
+			k.fail(idx, c.size(), "no-panic", "", fmt.Sprintf("handler %d panicked: %s", i, panics[i]))
+			continue
+		}
+		want := o.mb
+		if o.cb != "" {
+			want = append(append(append([]byte(o.cb), '('), o.mb...), ')')
+		}
+		if got := recs[i].Body.Bytes(); !bytes.Equal(got, want) {
+			k.fail(idx, c.size(), "overlap-own-envelope", "", fmt.Sprintf("handler %d of %d (mode %d) wrote %q, the envelope of its own value is %q", i, len(hs), mode, vC19Clip(got), vC19Clip(want)))
+		}
+	}
+}
+
+func vC19Clip(b []byte) []byte {
+	if len(b) > 100 {
+		return b[:100]
+	}
+	return b
+}
+
+func vC19GenOverlap(r *vRng) vSx {
+	n := r.pickInt(2, 2, 2, 3, 5, 8)
+	var subs []vSx
+	for i := 0; i < n; i++ {
+		var p vSx
+		switch r.intn(5) {
+		case 0:
+			p = vL(vZ(1), vC19Code(r))
+		case 1:
+			p = vL(vZ(2), vC19Code(r), vS(vC19Msg(r)), vI(1))
+		case 2:
+			p = vL(vZ(3), vC19Code(r), vS(vC19Msg(r)), vI(0))
+		default:
+			p = vL(vZ(0), vC19GenValue(r, 0, false), vS(""), vL(vZ(0)))
+		}
+		subs = append(subs, vL(p, vS(r.pickStr("", "", "cb", "j.q%s")), vB(nil)))
+	}
+	return vL(vI(7), vI(r.intn(4)), vS(r.pickStr("Oryx", "S")), vZ(0), vLs(subs))
 }
 
 // ---- one case ----
@@ -1023,7 +1267,15 @@ func TestVerifC19(t *testing.T) {
 	env.rt = &vC19RT{base: http.DefaultTransport}
 	http.DefaultClient.Transport = env.rt
 	defer func() { http.DefaultClient.Transport = savedRT }()
-	run := func(c vSx) { k.safely(c, func() { vC19Run(k, env, c) }) }
+	run := func(c vSx) {
+		k.safely(c, func() {
+			if c.isList() && len(c.l) > 0 && c.l[0].isInt() && c.l[0].int() == 7 {
+				vC19RunOverlap(k, c)
+			} else {
+				vC19Run(k, env, c)
+			}
+		})
+	}
 	if k.replay != nil {
 		run(*k.replay)
 		return
@@ -1033,6 +1285,9 @@ func TestVerifC19(t *testing.T) {
 	}
 	for i := 0; i < k.N(6, 40); i++ {
 		run(vC19GenBig(k.rnd))
+	}
+	for i := 0; i < k.N(300, 3000); i++ {
+		run(vC19GenOverlap(k.rnd))
 	}
 	n := k.N(2000, 24000)
 	for i := 0; i < n; i++ {
